@@ -30,7 +30,7 @@ package os
 //@   nopanic
 
 //@ func (fs *FS) toOSPath(goos string, separator rune, op string, fsPath string) (r string, e *hackpadfs.PathError)
-//@   props C09 C04
+//@   props C09 C04 C07
 //@   requires fs != nil && sepOK(separator)
 //@   use vpBasic(fsPath)
 //@   use vpBasic(fs.root)
@@ -75,7 +75,7 @@ package os
 //@   nopanic
 
 //@ func (fs *FS) rootedPath(op string, name string) (r string, e *hackpadfs.PathError)
-//@   props C09 C04
+//@   props C09 C04 C07
 //@   requires fs != nil
 //@   ensures "gate" implies(!VP(name), r == "" && e != nil && e.Err == hackpadfs.ErrInvalid && e.Path == name && e.Op == op)
 //@   ensures "join" implies(VP(name), e == nil && r == osPathOf(fs, "linux", '/', name))
@@ -83,7 +83,7 @@ package os
 //@   nopanic
 
 //@ func (fs *FS) ToOSPath(fsPath string) (r string, err error)
-//@   props C09 C04
+//@   props C09 C04 C07
 //@   requires fs != nil
 //@   ensures "gate" implies(!VP(fsPath), r == "" && isPathError(err) && pathOf(err) == fsPath && errIs(err, hackpadfs.ErrInvalid))
 //@   ensures "join" implies(VP(fsPath), err == nil && r == osPathOf(fs, "linux", '/', fsPath))
